@@ -480,9 +480,34 @@ def gen_attr_table_edges(tier):
                 Function('fz', Ret(B('gint'), attributes=[('z%d' % i, 'v%d' % i) for i in range(n)]), [])])
 
 
+def gen_name_clash(tier):
+    """Local entries that carry the same short name as a foreign type referenced from the same namespace: a qualified
+    reference (GObject.Object, GLib.DestroyNotify, GLib.SeekType) must still resolve to the foreign entry, an unqualified
+    one to the local entry.  Compiled alone ('solo:') so that the directory contains exactly these names."""
+    ents = [
+        ClassN('Object', parent='GObject.Object', gtype=('CObject', 'c_object_get_type'),
+               fields=[FieldN('parent_instance', I('GObject.Object', 'GObject', byref=0))],
+               methods=[Method('peer', Ret(I('Object', 'CObject'), 'none'), [Param('o', I('GObject.Object', 'GObject'))],
+                               instance=(I('Object', 'CObject'), 'none'), symbol='c_object_peer')]),
+        CallbackT('DestroyNotify', Ret(), [Param('x', B('gint'))], ctype='CDestroyNotify'),
+        EnumN('SeekType', [Member('here', 0), Member('there', 5)]),
+        RecordN('Error', [FieldN('code', B('gint'))], ctype='CError'),
+        Function('use_all', Ret(I('GLib.SeekType', 'GSeekType', byref=0)),
+                 [Param('a', I('DestroyNotify', 'CDestroyNotify', byref=0), scope='call'),
+                  Param('b', I('GLib.DestroyNotify', 'GDestroyNotify', byref=0), scope='call'),
+                  Param('c', I('SeekType', 'CSeekType', byref=0)),
+                  Param('d', I('Error', 'CError')),
+                  Param('e', I('GObject.Object', 'GObject')),
+                  Param('f', I('Object', 'CObject'))]),
+        ClassN('Derived', parent='Object', gtype=('CDerived', 'c_derived_get_type'), implements=[],
+               properties=[Prop('local', I('Object', 'CObject')), Prop('foreign', I('GObject.Object', 'GObject'))]),
+    ]
+    yield ('solo:name-clash', ents)
+
+
 ALL_GENS = [gen_callbacks, gen_enums, gen_records, gen_classes, gen_functions, gen_type_positions, gen_constants,
             gen_attr_everywhere, gen_same_type_everywhere, gen_return_flags,
-            gen_attr_table_edges]
+            gen_attr_table_edges, gen_name_clash]
 
 # entries every batch needs because other entries refer to them by name
 SUPPORT = ('cb-basic', 'enum-En', 'rec-Rec', 'class-Obj', 'class-ObjClass', 'iface-IfA', 'iface-IfB', 'iface-IfC', 'alias')
